@@ -167,8 +167,11 @@ def searches(ref, W, k):
 
 def plan(tier, seed):
     unis = ["sparse", "one-basetype"] + (["full", "names-only"] if tier == "thorough" else [])
-    n = 8
-    return {"shards": [{"universe": u, "index": i, "count": n} for u in unis for i in range(n)]}
+    shards = []
+    for u in unis:
+        n = 16 if (tier == "thorough" and u == "sparse") else 8
+        shards += [{"universe": u, "index": i, "count": n} for i in range(n)]
+    return {"shards": shards}
 
 
 def run_shard(sh):
@@ -180,7 +183,7 @@ def run_shard(sh):
     fs = W.finders()
     fs = {"list": fs["list"], "paths": fs[W.names[0]], "all": fs["all"]}
     rec = Recorder(sh["index"], sh["count"], sh["seed"])
-    k = 2 if sh["tier"] == "thorough" else 1
+    k = 2 if (sh["tier"] == "thorough" and sh["universe"] == "sparse") else 1
     total = 0
     for s in searches(ref, W, k):
         if not rec.mine(sh["universe"] + "|" + s):
@@ -208,5 +211,5 @@ def replay_case(kind, case):
 
 
 def coverage(m, tier, seed):
-    return {"bounds": {"k": 2 if tier == "thorough" else 1}, "exhaustive": True,
+    return {"bounds": {"k": "2 on the sparse universe, 1 elsewhere" if tier == "thorough" else 1}, "exhaustive": True,
             "relation_instances": sum(e.get("relation_instances", 0) for e in m["extra"])}
